@@ -145,6 +145,42 @@ def run(ck: Check) -> None:
                         ck.violation("signatures made before the payload changed still count after one signer re-signed", {"impl": rv[1].impl}, "stale-signatures-count")
             if nk >= 2:
                 ck.nontrivial_add((proto.enc(payload)[:200], tuple(k.idx for k in order2)))
+    # payloads whose canonical serialization ends exactly on a buffer / hash-block / length-field boundary (and on the boundaries the current source names:
+    # gen.sizes_of_interest): every one round-trips — what the library signs, the library verifies, and it is the signature RFC 8032 defines over the
+    # canonical bytes.  (Implementation and independent signer only; the sizes are directed, not sampled.)
+    sk = gen.key(3)
+    priv = impl.common.PrivateKey.from_bytes(sk.seed)
+    for nbytes in gen.sizes_of_interest():
+        payload = gen.sized_payload(nbytes)
+        data = gen.oracle_bytes(payload)
+        ck.count("sized-roundtrip")
+        ck.evaluations += 1
+        ck.oracle_checks += 1
+        try:
+            with impl.quiet_stdout():
+                env = impl.signing.wrap_as_signable(payload)
+                impl.signing.sign_signable(env, priv)
+                sig = (env["signatures"].get(sk.hex) or {}).get("signature")
+                direct = impl.signing.serialize_and_sign(payload, priv)
+                try:
+                    impl.authentication.verify_signable(env, [sk.hex], 1)
+                    verdict = "OK"
+                except Exception as e:  # noqa: BLE001
+                    verdict = impl.classify(e)
+                try:
+                    impl.authentication.verify_signature(sk.sign(data).hex(), impl.common.PublicKey.from_hex(sk.hex), data)
+                    prim = "OK"
+                except Exception as e:  # noqa: BLE001
+                    prim = impl.classify(e)
+        except Exception as e:  # noqa: BLE001
+            ck.violation("wrapping and signing a JSON payload failed", {"canonical_size": len(data), "error": repr(e)[:200]}, "sized:failed")
+            continue
+        want = sk.sign(data).hex()
+        if sig != want or direct != want or verdict != "OK" or prim != "OK":
+            ck.violation("a payload of a particular canonical size does not round-trip: the library's signature is not the ed25519 signature over the canonical bytes, or does not verify",
+                         {"canonical_size": len(data), "signature_is_rfc8032_over_canonical_bytes": sig == want, "serialize_and_sign_same": direct == want,
+                          "verify_signable": verdict, "verify_signature_of_reference_signature": prim}, "sized:roundtrip")
+            break
     # wrong kinds of key
     bad = [Case("sign", [gen.envelope({"a": 1}), x], tag="sign-bad-key") for x in [None, "ab" * 32, b"\x01" * 32, 5, proto.Opaque(0)]]
     bad += [Case("sign", [x, proto.KeyObj(True, gen.key(1).seed)], tag="sign-bad-envelope") for x in [None, {"signed": 1}, {"signatures": [], "signed": 1}, [], "x", {"signatures": {}, "signed": 1, "extra": 2}]]
